@@ -103,6 +103,20 @@ struct COp
    CBuf * _buf; const char * _p;
 };
 
+// k1=v1,k2=v2 (hex): the entries of a Hashtable<String,String>, in iteration (= insertion) order
+static std::vector< std::pair<str,str> > parse_pairs(const str & t)
+{
+   std::vector< std::pair<str,str> > r;
+   if (t.empty()) return r;
+   const std::vector<str> kvs = split(t, ',');
+   for (size_t i=0; i<kvs.size(); i++) {const std::vector<str> kv = split(kvs[i], '='); r.push_back(std::make_pair(unhex(kv[0]), unhex(kv.size() > 1 ? kv[1] : str())));}
+   return r;
+}
+static void fill_table(Hashtable<String,String> & t, const str & spec)
+{
+   const std::vector< std::pair<str,str> > ps = parse_pairs(spec);
+   for (size_t i=0; i<ps.size(); i++) {CBuf k(ps[i].first), v(ps[i].second); (void) t.Put(String(k._p), String(v._p));}
+}
 static int sgn(int v) {return (v<0) ? -1 : ((v>0) ? 1 : 0);}
 static str st(const status_t & r) {return r.IsOK() ? "ok" : "err";}
 
@@ -150,6 +164,8 @@ static str apply(String & s, const std::vector<str> & a, bool allowAlias, String
       free(p);
       return st(r);
    }
+   if (c == "rm")  {Hashtable<String,String> t; fill_table(t, a[1]); return "i"+num(s.Replace(t, U(a[2])));}
+   if (c == "wrm") {Hashtable<String,String> t; fill_table(t, a[1]); prod = new String(s.WithReplacements(t, U(a[2]))); return "r";}
    if (c == "set") {const uint32 i = U(a[1]); if (i < s.Length()) s[i] = CH(2); return "-";}
    if (c == "<<i") {s << atoi(a[1].c_str()); return "-";}
    if (c == "<<b") {s << (a[1] == "1"); return "-";}
@@ -230,6 +246,19 @@ static str apply(String & s, const std::vector<str> & a, bool allowAlias, String
    if (c == "argh"){prod = new String(s.Arg((short) atoi(a[1].c_str()))); if ((atoi(a[1].c_str()) >= 0)&&(*prod != s.Arg((unsigned short) atoi(a[1].c_str())))) complaint = "Arg(short) != Arg(unsigned short)"; return "r";}
    if (c == "argc"){prod = new String(s.Arg((char) atoi(a[1].c_str()))); if ((atoi(a[1].c_str()) >= 0)&&(*prod != s.Arg((unsigned char) atoi(a[1].c_str())))) complaint = "Arg(char) != Arg(unsigned char)"; return "r";}
    if (c == "argb"){prod = new String(s.Arg(a[1] == "1")); return "r";}
+   if ((c == "argd")||(c == "argf"))
+   {
+      // a[1] = the IEEE bit pattern (hex), a[2] = minDigitsAfterDecimal, a[3] = maxDigitsAfterDecimal, a[4] = the text printf is expected to produce
+      double d;
+      if (c == "argd") {uint64 bits = strtoull(a[1].c_str(), NULL, 16); memcpy(&d, &bits, sizeof(d));}
+                  else {uint32 bits = (uint32) strtoul(a[1].c_str(), NULL, 16); float f; memcpy(&f, &bits, sizeof(f)); d = f;}
+      char buf[256];
+      if (U(a[3]) == MUSCLE_NO_LIMIT) snprintf(buf, sizeof(buf), "%f", d); else snprintf(buf, sizeof(buf), "%.*f", (int) muscleMin(U(a[3]), (uint32)100), d);
+      if (str(buf) != unhex(a[4])) complaint = "premise: this libc's printf text differs from the text in the case";
+      if (c == "argd") prod = new String(s.Arg(d, U(a[2]), U(a[3])));
+                  else {uint32 bits = (uint32) strtoul(a[1].c_str(), NULL, 16); float f; memcpy(&f, &bits, sizeof(f)); prod = new String(s.Arg(f, U(a[2]), U(a[3])));}
+      return "r";
+   }
    if (c == "wsf") {SA(1); prod = new String(s.WithSuffix(S1)); return "r";}
    if (c == "wpf") {SA(1); prod = new String(s.WithPrefix(S1)); return "r";}
    if (c == "wosf"){SA(1); prod = new String(s.WithoutSuffix(S1, U(a[2]))); return "r";}
@@ -363,6 +392,21 @@ static str ref_apply(str & s, const std::vector<str> & a, bool & hasProd, str & 
       if (z == str::npos) return "err";    // unterminated (or empty) input must be rejected; the value is then unspecified
       s = b.substr(0, z); return "ok";
    }
+   if ((c == "rm")||(c == "wrm"))
+   {
+      // simultaneous search-and-replace: left to right, at each offset the first key (in table order) that occurs there
+      const std::vector< std::pair<str,str> > ps = parse_pairs(a[1]);
+      uint32 max = U(a[2]); long long n = 0; str r;
+      for (size_t i=0; i<s.size(); )
+      {
+         size_t hit = ps.size();
+         if (max > 0) for (size_t j=0; j<ps.size(); j++) if ((!ps[j].first.empty())&&(s.compare(i, ps[j].first.size(), ps[j].first) == 0)) {hit = j; break;}
+         if (hit < ps.size()) {r += ps[hit].second; i += ps[hit].first.size(); n++; if (max != MUSCLE_NO_LIMIT) max--;}
+                         else {r += s[i]; i++;}
+      }
+      if (c == "rm") {s = r; return "i"+num(n);}
+      hasProd = true; prod = r; return "r";
+   }
    if (c == "set") {const uint32 i = U(a[1]); if (i < s.size()) s[i] = RH(2); return "-";}
    if (c == "<<i") {s += num(atoi(a[1].c_str())); return "-";}
    if (c == "<<b") {s += (a[1] == "1") ? "true" : "false"; return "-";}
@@ -449,6 +493,21 @@ static str ref_apply(str & s, const std::vector<str> & a, bool & hasProd, str & 
    if ((c == "argi")||(c == "argl")||(c == "argh")||(c == "argc")) {prod = argsub(s, num(strtoll(a[1].c_str(), NULL, 10))); return "r";}
    if ((c == "argu")||(c == "argul")) {std::ostringstream os; os << strtoull(a[1].c_str(), NULL, 10); prod = argsub(s, os.str()); return "r";}
    if (c == "argb"){prod = argsub(s, (a[1] == "1") ? "true" : "false"); return "r";}
+   if ((c == "argd")||(c == "argf"))
+   {
+      // the number's text: no trailing zeros after a decimal point; then no bare trailing point, or at least (min) digits after it
+      str t = unhex(a[4]); const uint32 mn = U(a[2]);
+      if (t.find('.') != str::npos) while((!t.empty())&&(t[t.size()-1] == '0')) t.erase(t.size()-1);
+      if (mn == 0) {if ((!t.empty())&&(t[t.size()-1] == '.')) t.erase(t.size()-1);}
+      else
+      {
+         size_t dot = t.rfind('.');
+         if (dot == str::npos) {t += '.'; dot = t.size()-1;}
+         const size_t have = t.size()-dot-1;
+         if (have < mn) t += str(mn-have, '0');
+      }
+      prod = argsub(s, t); return "r";
+   }
    if (c == "wsf") {prod = ends(s, RS(1)) ? s : (s+RS(1)); return "r";}
    if (c == "wpf") {prod = starts(s, RS(1)) ? s : (RS(1)+s); return "r";}
    if (c == "wosf"){prod = s; const str x = RS(1); uint32 max = U(a[2]); if (!x.empty()) while((max > 0)&&(ends(prod, x))) {prod.erase(prod.size()-x.size()); max--;} return "r";}
